@@ -13,9 +13,22 @@ package dnsforward
 // The stress must not create schedules the program cannot: state-changing
 // handlers run under one mutex that mirrors home.controlLock, and the modules'
 // WriteDiskConfig run only from ConfigModified (as home.config.write does, under
-// a mutex mirroring config.Lock).  It stays away from the two known deadlock
-// shapes (recursive serverLock.RLock via genBlockedHost, query-log client finder
-// calling IsBlockedClient), which are static findings of the lock table.
+// a mutex mirroring config.Lock).  While the lock table still lists a re-entrant
+// serverLock.RLock (VERIF_C05_REENTRANT=1, set by props/C05.py from the
+// regenerated table) it stays away from the two deadlock shapes (recursive
+// serverLock.RLock via genBlockedHost, query-log client finder calling
+// IsBlockedClient), which are then static findings of the table; once the table
+// has no such pair the harness enters both on purpose: hash-prefix checkers that
+// block sb.example / pc.example with a block HOST NAME (resolved through the
+// proxy under the read lock) and a query-log client finder that asks
+// IsBlockedClient, as home's does.
+//
+// Whole-structure rewrites: the server is started and talks to a loopback UDP
+// upstream, so the two production paths into Reconfigure are driven as well:
+// POST /control/dns_config with a setting that needs a restart (under the
+// control-lock mirror) and Reconfigure(newConf) as the TLS reload / SIGHUP path
+// does it (outside it).  A query that overlaps a restart, or whose upstream
+// exchange timed out, is not judged (timing-dependent).
 
 import (
 	"bytes"
@@ -45,7 +58,6 @@ import (
 	"github.com/AdguardTeam/AdGuardHome/internal/schedule"
 	"github.com/AdguardTeam/AdGuardHome/internal/stats"
 	"github.com/AdguardTeam/dnsproxy/proxy"
-	"github.com/AdguardTeam/dnsproxy/upstream"
 	"github.com/AdguardTeam/golibs/logutil/slogutil"
 	"github.com/AdguardTeam/golibs/netutil"
 	"github.com/AdguardTeam/golibs/timeutil"
@@ -59,9 +71,13 @@ func (c05Upstream) Exchange(req *dns.Msg) (resp *dns.Msg, err error) {
 	q := req.Question[0]
 	switch q.Qtype {
 	case dns.TypeA:
+		ip := net.IP{192, 0, 2, 7}
+		if strings.HasSuffix(q.Name, "block.example.") {
+			ip = net.IP{192, 0, 2, 66} // the safe-browsing / parental block hosts
+		}
 		resp.Answer = append(resp.Answer, &dns.A{
 			Hdr: dns.RR_Header{Name: q.Name, Rrtype: dns.TypeA, Class: dns.ClassINET, Ttl: 60},
-			A:   net.IP{192, 0, 2, 7},
+			A:   ip,
 		})
 	case dns.TypeAAAA:
 		resp.Answer = append(resp.Answer, &dns.AAAA{
@@ -74,11 +90,33 @@ func (c05Upstream) Exchange(req *dns.Msg) (resp *dns.Msg, err error) {
 func (c05Upstream) Address() string { return "c05.mock" }
 func (c05Upstream) Close() error    { return nil }
 
-// c05Checker: hash-prefix checker that never blocks (a blocked host would go
-// through genBlockedHost, the known recursive RLock).
-type c05Checker struct{}
+// c05StartUpstream serves c05Upstream's answers on a loopback UDP socket, so
+// that the upstream configuration survives Prepare / Reconfigure.
+func c05StartUpstream(t *testing.T) (addr string) {
+	pc, err := net.ListenPacket("udp", "127.0.0.1:0")
+	if err != nil {
+		t.Fatalf("loopback upstream: %v", err)
+	}
+	if uc, ok := pc.(*net.UDPConn); ok {
+		_ = uc.SetReadBuffer(4 << 20)
+	}
+	started := make(chan struct{})
+	srv := &dns.Server{PacketConn: pc, NotifyStartedFunc: func() { close(started) },
+		Handler: dns.HandlerFunc(func(w dns.ResponseWriter, req *dns.Msg) {
+			resp, _ := c05Upstream{}.Exchange(req)
+			_ = w.WriteMsg(resp)
+		})}
+	go func() { _ = srv.ActivateAndServe() }()
+	<-started
+	t.Cleanup(func() { _ = srv.Shutdown() })
+	return pc.LocalAddr().String()
+}
 
-func (c05Checker) Check(string) (block bool, err error) { return false, nil }
+// c05Checker: hash-prefix checker.  It blocks its host only when the harness
+// may enter genBlockedHost (no re-entrant serverLock.RLock in the lock table).
+type c05Checker struct{ host string }
+
+func (c c05Checker) Check(h string) (block bool, err error) { return c.host != "" && h == c.host, nil }
 
 type c05Report struct {
 	Seed      uint64         `json:"seed"`
@@ -90,6 +128,11 @@ type c05Report struct {
 	Panics    []string       `json:"panics"`
 	Malformed []string       `json:"malformed"`
 	Stalled   string         `json:"stalled"`
+	Reconfs   int64          `json:"reconfigures"`
+	Overlap   int64          `json:"queries_overlapping_restart_not_judged"`
+	Timeouts  int64          `json:"queries_upstream_timeout_not_judged"`
+	BlockHost int64          `json:"queries_answered_with_block_host"`
+	Reentrant bool           `json:"avoids_reentrant_paths"`
 	Statuses  map[string]int `json:"http_statuses"`
 }
 
@@ -269,7 +312,9 @@ func TestVerifC05Stress(t *testing.T) {
 	if outDir == "" {
 		outDir = t.TempDir()
 	}
-	rep := &c05Report{Seed: seed, Millis: millis, Statuses: map[string]int{}}
+	// the lock table still lists a re-entrant serverLock.RLock: stay out of it
+	reentrant := os.Getenv("VERIF_C05_REENTRANT") != "0"
+	rep := &c05Report{Seed: seed, Millis: millis, Statuses: map[string]int{}, Reentrant: reentrant}
 	var repMu sync.Mutex
 	note := func(dst *[]string, format string, args ...any) {
 		repMu.Lock()
@@ -327,6 +372,8 @@ func TestVerifC05Stress(t *testing.T) {
 		t.Fatalf("client storage: %v", err)
 	}
 
+	var srvPtr atomic.Pointer[Server]
+
 	// ---- statistics
 	ignSt, _ := aghnet.NewIgnoreEngine(nil)
 	st, err := stats.New(stats.Config{
@@ -366,6 +413,14 @@ func TestVerifC05Stress(t *testing.T) {
 					return &querylog.Client{Name: p.Name, IgnoreQueryLog: p.IgnoreQueryLog}, nil
 				}
 			}
+			if srv := srvPtr.Load(); srv != nil && !reentrant && len(ids) > 0 {
+				// home.clientsContainer.clientOrArtificial: an unknown client
+				// gets an artificial record with the access verdict
+				ip, _ := netip.ParseAddr(ids[0])
+				c = &querylog.Client{}
+				c.Disallowed, c.DisallowedRule = srv.IsBlockedClient(ip, ids[0])
+				return c, nil
+			}
 			return nil, nil
 		},
 		BaseDir:     tmp,
@@ -384,6 +439,10 @@ func TestVerifC05Stress(t *testing.T) {
 	// ---- filtering
 	filtering.InitModule() // the blocked-service catalogue, as home does at start-up
 	ssConf := filtering.SafeSearchConfig{Enabled: false, Google: true, Yandex: true}
+	sbChecker, pcChecker := c05Checker{}, c05Checker{}
+	if !reentrant {
+		sbChecker, pcChecker = c05Checker{host: "sb.example"}, c05Checker{host: "pc.example"}
+	}
 	safeSearch, err := safesearch.NewDefault(ctx, &safesearch.DefaultConfig{
 		Logger:         logger,
 		ServicesConfig: ssConf,
@@ -400,8 +459,10 @@ func TestVerifC05Stress(t *testing.T) {
 		BlockingMode:               filtering.BlockingModeDefault,
 		BlockedResponseTTL:         10,
 		ApplyClientFiltering:       storage.ApplyClientFiltering,
-		SafeBrowsingChecker:        c05Checker{},
-		ParentalControlChecker:     c05Checker{},
+		SafeBrowsingChecker:        sbChecker,
+		ParentalControlChecker:     pcChecker,
+		SafeBrowsingBlockHost:      "sbblock.example",
+		ParentalBlockHost:          "pcblock.example",
 		BlockedServices:            &filtering.BlockedServices{Schedule: schedule.EmptyWeekly()},
 		DataDir:                    tmp,
 		ConfigModified:             onModified,
@@ -434,28 +495,48 @@ func TestVerifC05Stress(t *testing.T) {
 	if err != nil {
 		t.Fatalf("NewServer: %v", err)
 	}
-	err = s.Prepare(&ServerConfig{
-		UDPListenAddrs: []*net.UDPAddr{{}},
-		TCPListenAddrs: []*net.TCPAddr{{}},
-		TLSConf:        &TLSConfig{},
-		Config: Config{
-			UpstreamMode:     UpstreamModeLoadBalance,
-			EDNSClientSubnet: &EDNSClientSubnet{Enabled: false},
-			ClientsContainer: storage,
-		},
-		ConfigModified: onModified,
-		HTTPRegister:   reg,
-		ServePlainDNS:  true,
-	})
-	if err != nil {
+	upsAddr := c05StartUpstream(t)
+	// a fresh configuration object per (re)configuration, as home.newServerConfig builds one
+	mkConf := func() *ServerConfig {
+		return &ServerConfig{
+			UDPListenAddrs: []*net.UDPAddr{{IP: net.IP{127, 0, 0, 1}}},
+			TCPListenAddrs: []*net.TCPAddr{{IP: net.IP{127, 0, 0, 1}}},
+			TLSConf:        &TLSConfig{},
+			Config: Config{
+				UpstreamDNS:      []string{upsAddr},
+				UpstreamMode:     UpstreamModeLoadBalance,
+				EDNSClientSubnet: &EDNSClientSubnet{Enabled: false},
+				ClientsContainer: storage,
+			},
+			ConfigModified:  onModified,
+			HTTPRegister:    reg,
+			ServePlainDNS:   true,
+			UpstreamTimeout: 5 * time.Second,
+		}
+	}
+	if err = s.Prepare(mkConf()); err != nil {
 		t.Fatalf("Prepare: %v", err)
 	}
-	s.conf.UpstreamConfig.Upstreams = []upstream.Upstream{c05Upstream{}}
+	if err = s.Start(); err != nil {
+		t.Fatalf("Start: %v", err)
+	}
+	t.Cleanup(func() { _ = s.Stop() })
+	srvPtr.Store(s)
+	// restarts in progress or finished: a query whose execution overlaps one is not judged
+	var restartGen atomic.Int64
+	var reconfs, overlap, timeouts, blockHostAnswers atomic.Int64
+	restarting := func(fn func()) {
+		restartGen.Add(1)
+		defer restartGen.Add(1)
+		fn()
+	}
 
 	modified = func() {
 		cfgMu.Lock()
 		defer cfgMu.Unlock()
-		f.WriteDiskConfig(fconf) // home passes config.Filtering, the object the filter keeps
+		// home.config.write saves into a fresh object (since the repair of the
+		// aliased copy), never into the configuration the filter works with
+		f.WriteDiskConfig(&filtering.Config{})
 		dc := Config{}
 		s.WriteDiskConfig(&dc)
 		qc := querylog.Config{}
@@ -511,6 +592,7 @@ func TestVerifC05Stress(t *testing.T) {
 	deadline := time.Now().Add(time.Duration(millis) * time.Millisecond)
 	var queries, adminOps, refused, shapes atomic.Int64
 	var shapesDone atomic.Bool
+	var nextRestartAt atomic.Int64
 	var wg sync.WaitGroup
 	guard := func(what string, fn func()) {
 		defer func() {
@@ -523,22 +605,37 @@ func TestVerifC05Stress(t *testing.T) {
 		fn()
 	}
 
-	names := []string{"blocked.example.", "sub.blocked.example.", "white.example.", "ok.example.", "rw.example.", "custom.example.", "x.test."}
+	names := []string{"blocked.example.", "sub.blocked.example.", "white.example.", "ok.example.", "rw.example.", "custom.example.", "x.test.", "sb.example.", "pc.example."}
 	// one query through the real request path; a panic is recovered and
 	// reported with the query and the admin requests that preceded it
 	doQuery := func(name string, qt uint16, addr netip.Addr) {
 		guard("dns "+name+" from "+addr.String()+" after admin requests ["+recent()+"]", func() {
 			req := createTestMessageWithType(name, qt)
 			pctx := &proxy.DNSContext{Proto: proxy.ProtoUDP, Req: req, Addr: netip.AddrPortFrom(addr, 5353)}
+			g0 := restartGen.Load()
 			if err := s.HandleBefore(nil, pctx); err != nil {
 				refused.Add(1)
 				return
 			}
-			if err := s.handleDNSRequest(nil, pctx); err != nil {
+			err := s.handleDNSRequest(nil, pctx)
+			if g0%2 == 1 || restartGen.Load() != g0 {
+				overlap.Add(1)
+				return
+			}
+			if err != nil {
+				if strings.Contains(err.Error(), "timeout") || strings.Contains(err.Error(), "deadline exceeded") {
+					timeouts.Add(1)
+					return
+				}
 				note(&rep.Malformed, "%s from %s: handleDNSRequest error %v", name, addr, err)
 				return
 			}
 			res := pctx.Res
+			if res != nil && (name == "sb.example." || name == "pc.example.") && len(res.Answer) > 0 {
+				if a, ok := res.Answer[0].(*dns.A); ok && a.A.Equal(net.IP{192, 0, 2, 66}) {
+					blockHostAnswers.Add(1)
+				}
+			}
 			switch {
 			case res == nil:
 				note(&rep.Malformed, "%s from %s: no response", name, addr)
@@ -577,6 +674,20 @@ func TestVerifC05Stress(t *testing.T) {
 		},
 		func(r *c05Rand) {
 			call("POST", "/control/protection", fmt.Sprintf(`{"enabled":%v,"duration":%d}`, r.intn(2) == 0, 20+r.intn(50)))
+		},
+		func(r *c05Rand) {
+			// a setting that needs a restart: handleSetConfig -> Reconfigure(nil).
+			// Not more often than once per 300 judged queries: a restart holds
+			// the write lock for at least 100 ms.
+			if q := queries.Load(); q < nextRestartAt.Load() {
+				return
+			} else {
+				nextRestartAt.Store(q + 300)
+			}
+			restarting(func() {
+				call("POST", "/control/dns_config", fmt.Sprintf(`{"ratelimit":%d}`, 1000+r.intn(50)))
+			})
+			reconfs.Add(1)
 		},
 		func(r *c05Rand) { call("POST", "/control/cache_clear", `{}`) },
 		func(r *c05Rand) {
@@ -682,6 +793,31 @@ func TestVerifC05Stress(t *testing.T) {
 			}
 		}(g)
 	}
+	// the TLS reload / SIGHUP path (home.tlsManager.reconfigureDNSServer): a new
+	// configuration object, Reconfigure outside the control lock; paced by the
+	// progress of the queries, not by the clock
+	wg.Add(1)
+	go func() {
+		defer wg.Done()
+		next := int64(150)
+		for time.Now().Before(deadline) {
+			if queries.Load() < next {
+				time.Sleep(time.Millisecond) // pacing only
+				continue
+			}
+			guard("reconfigure", func() {
+				restarting(func() {
+					if err := s.Reconfigure(mkConf()); err != nil {
+						note(&rep.Malformed, "Reconfigure: %v", err)
+					}
+				})
+			})
+			reconfs.Add(1)
+			adminOps.Add(1)
+			next = queries.Load() + 400
+		}
+	}()
+
 	for g := 0; g < 2; g++ {
 		wg.Add(1)
 		go func(g int) {
@@ -717,5 +853,13 @@ func TestVerifC05Stress(t *testing.T) {
 	}
 	rep.Queries, rep.AdminOps, rep.Refused = queries.Load(), adminOps.Load(), refused.Load()
 	rep.Shapes = shapes.Load()
+	rep.Reconfs, rep.Overlap, rep.Timeouts, rep.BlockHost = reconfs.Load(), overlap.Load(), timeouts.Load(), blockHostAnswers.Load()
+	if rep.Stalled != "" {
+		// the clean-ups (Stop takes the write lock) would wait for the
+		// deadlocked workers for ever: write the report and leave
+		b, _ := json.MarshalIndent(rep, "", " ")
+		_ = os.WriteFile(filepath.Join(outDir, "c05_stress.json"), b, 0o644)
+		os.Exit(3) // not 0: the testing package panics on os.Exit(0)
+	}
 	t.Logf("c05 stress: %d queries, %d admin ops, %d refused, %d panics, %d malformed", rep.Queries, rep.AdminOps, rep.Refused, len(rep.Panics), len(rep.Malformed))
 }
